@@ -1,5 +1,6 @@
 #![allow(dead_code, unused_imports, unused_variables)]
 mod c09;
+mod c14;
 mod c15;
 mod c13;
 mod c16;
@@ -72,6 +73,7 @@ fn main() {
                     "c16" => c16::run(&c, &mut out),
                     "c13" => c13::run(&c, &mut out),
                     "c09" => c09::run(&c, &mut out),
+                    "c14" => c14::run(&c, &mut out),
                     "c15" => c15::run(&c, &mut out),
                     "c08" => schemes::run_c08(&c, &mut out),
                     k => panic!("unknown case kind {}", k),
